@@ -628,6 +628,15 @@ func (w *Worker) modelVector() []VecEntry {
 	return out
 }
 
+// modelVectorChecked returns a model of the current path condition, or nil if
+// the path condition is unsatisfiable.
+func (w *Worker) modelVectorChecked() []VecEntry {
+	if w.solver.Check() == sym.Unsat {
+		return nil
+	}
+	return w.modelVector()
+}
+
 func (w *Worker) recordViolation(kind, label string, pos token.Pos, vec []VecEntry, note string) {
 	w.res.ViolCount[label]++
 	if w.res.ViolCount[label] <= 3 {
@@ -733,6 +742,9 @@ func (w *Worker) runPath() {
 	defer func() {
 		w.res.Steps += w.steps
 		r := recover()
+		if w.gor != nil {
+			w.gor.sched.killAll()
+		}
 		if r == nil {
 			return
 		}
@@ -775,6 +787,9 @@ func (w *Worker) runPath() {
 	}()
 	w.initGlobals()
 	w.callFn(w.h.Fn, nil, token.NoPos)
+	if w.gor != nil {
+		w.gor.sched.killAll()
+	}
 	// completed
 	if w.live() || len(w.nodes) == 0 {
 		w.res.Paths++
